@@ -10,7 +10,7 @@ CHECKS = {
     "C04": ("exhaustive enumeration of the dispatch lattice against a model of the plum resolver (rule table extracted from decorators with ast)",
             "Complete decision for the finite lattice (function x operator kind(s) x annotation set x algorithm class x arity x configuration): every tuple "
             "must have exactly one winning rule under plum's algorithm, in registration and reversed order. A tie or a missing rule is reported with the "
-            "candidate list. This is the property itself, decided from the decorators, including tuples and backends no test builds.",
+            "candidate list; every rule's cond lambda must accept the arity of every signature registered for the rule (defaults create shorter ones). This is the property itself, decided from the decorators, including tuples and backends no test builds.",
             "Trusted: the ~150-line resolver model (differentially tested against the live plum registry in the thorough tier), the documented argument "
             "kinds in sa/oracle_domains.py, name resolution of sa/index.py. Errors raised inside the selected rule are outside the property.", "4/C04"),
     "C19": ("reachability over the call graph with dispatch edges resolved by the resolver model; materialiser who-may-call; default-arity consistency",
@@ -23,13 +23,15 @@ CHECKS = {
             "Full for determinism and global state: every reference to numpy.random / random / torch RNG APIs in cola/ (three backends, including the two the "
             "sandbox cannot import) is classified; perturbing calls must lie in a get_state/set_state bracket on every path to a normal exit; keys passed to "
             "randn must derive from a parameter, PRNGKey(constant) or next_key; loop-carried keys must advance; PRNGKey/next_key must depend on their argument; "
-            "the Hutchinson loop has a cap conjunct and a +1 counter. Of unbiasedness only the probe/estimator conjugation agreement is decided.",
+            "the Hutchinson loop has a cap conjunct and a +1 counter. Of unbiasedness only two necessary conditions are decided: probe/estimator conjugation agreement and that "
+            "the estimator reads the sign of the offset k (not only abs(k)).",
             "Statistical unbiasedness, variance and the Rademacher-exactness claim are not decided. Exceptional exits inside a bracket are ignored.", "4/C17"),
     "C18": ("ownership / effect analysis: flow-sensitive origins of every in-place write target, parameter-write and return-alias summaries to a fixpoint over the resolved call graph",
             "Full for non-mutation: every in-place write site in cola/ (update_array on numpy/torch, augmented assignment, subscript/attribute store, out=, mutating methods, "
             "setattr) is classified by where its target's storage comes from; no public entry point may carry a parameter-write summary; products are treated as possibly "
             "returning their operand (Identity._matmat does); attribute stores and mutating calls on representation-relevant operator attributes outside constructors are "
-            "violations; the annotation wrapper must build a new object and a new set. Flatten/unflatten: writer/reader encoding agreement is decided, the history clause is not.",
+            "violations; the annotation wrapper must build a new object and a new set. Flatten/unflatten: writer/reader encoding agreement is decided; of the history clause only that "
+            "the per-class leaf table is copied for every class the metaclass creates.",
             "Trusted: backend freshness table in sa/own.py (XNP_FRESH / XNP_VIEW), the named exclusions (module-namespace plumbing, torch ctx, the update_array primitives). "
             "The registry-history clause of flatten depends on runtime values and is not decided.", "4/C18"),
     "C05": ("abstract interpretation of the get_annotations rules over operator descriptors against an oracle of preserved annotations; provenance dataflow (ORTHO/COLS) at annotation output sites",
@@ -50,7 +52,7 @@ CHECKS = {
             "Decides the algebraic meaning of every Python operator overload of LinearOperator (A+x, A-x, -A, c*A, A/c, c/A, A@B, B@A, the A+0 shortcut) and of every rewrite rule "
             "(factor order for Product/Kronecker/KronSum flattening, multiset for Sum, identity dropping, scalar merging, diagonal Kronecker fusion in row-major order, scalar operator "
             "placed on the side whose size it has), that Product/Sum constructors and @ validate the contracted dimensions before building, and that the dtype of *Ms composites is a "
-            "reduction over all parts.",
+            "reduction over all parts, and that the scalar operator representing c in c*A is typed by something c influences (refuted on this tree for three rules: known findings).",
             "The value of the represented matrix and error messages are not decided; totality/unambiguity of the combinators is C04.", "4/C03"),
     "C06": ("term rewriting of every inv / pinv rule against inv(A) under the operand kind's defining equation and the factorisation hypotheses; decision tables of the Auto rules",
             "Decides the algebraic shape of every dispatch path of inv/pinv/solve: factorisation base cases (inv(H(L))*inv(L) for A = L*H(L); inv(U)*inv(L)*inv(P) for A = P*L*U), "
@@ -74,7 +76,7 @@ CHECKS = {
             "Structural necessary conditions of a valid SVD / pseudo-inverse: U, Sigma and V are permuted / sliced by one common index in every rule; Sigma is non-negative by "
             "provenance (backend singular values, sqrt of eigenvalues, ones) and is refuted when it is the rule's own payload; the Krylov rules run the eigen-solver on H(A)A or A H(A) "
             "(not on a transposed Gram matrix) and recover the other factor as A V inv(Sigma) / H(A) U inv(Sigma); pinv structural rules equal the inverse of the payload, the "
-            "least-squares operator has shape (columns, rows); Auto tables are exhaustive.",
+            "least-squares operator has shape (columns, rows); an exit that returns one factor as both U and V is restricted to PSD operands; Auto tables are exhaustive.",
             "Orthonormality, best rank-k and minimum-norm optimality are numerical and not decided; the CG pinv rule regularises on purpose and has no exact-algebra obligation.", "4/C16"),
     "C07": ("scalar term rewriting of every slogdet rule against the determinant identities; dependence and sign-domain rules; decision table of the Auto rule",
             "Decides the algebraic shape of the (sign, logabs) pair of every slogdet rule: product of square factors, Kronecker exponent N/n_i on sign and log-magnitude, block "
@@ -87,14 +89,16 @@ CHECKS = {
             "k-generic ones must let k reach the result; self-built off-diagonals have length n - |k|; recursive calls keep (k, alg); the outer-product idiom puts factor i on axis i "
             "(row-major) with product for Kronecker and sum for KronSum; BlockDiag concatenates with multiplicities; trace = sum of diag(A, 0, alg) after a squareness check and product "
             "of traces for Kronecker; the Exact/Hutch base case forwards (A, k); Auto constructs Exact on the small-tolerance branch; the blocked probing loop of exact_diag ranges over "
-            "every column of the operator in steps of the block it hands to the chunk builder.",
+            "every column of the operator in steps of the block it hands to the chunk builder and reads the sign of the offset somewhere; the Auto rule's default tolerance is an "
+            "operator-independent literal not looser than 1e-6.",
             "The chunk/shift arithmetic inside get_I_chunk_like (sizes not divisible by the block) and the numerical value of the Auto threshold are runtime quantities and "
             "are NOT decided.", "4/C08"),
     "C10": ("provenance dataflow (sort order of spectra) and def-use pairing over the eig rules and their Krylov helpers; decision table of the Auto rule",
             "Decides the selection mechanism: get_slice maps SM/LM to the first/last k entries, so every spectrum it cuts must be in ascending-magnitude order (eigh: algebraic, eig: "
             "unordered, x[argsort(x)]: algebraic, x[argsort(|x|)]: magnitude); values and vectors must be permuted by the same argsort index on the column axis (a Permutation operator "
             "or row index is the transposed permutation) and cut by the same slice; eigmax/eigmin call eig with k=1 and LM/SM; power iteration refuses other requests; Auto chooses "
-            "Lanczos only under SelfAdjoint; the matrix handed to the backend eigh / eig is A itself (term equality, under H(A)=A for eigh).",
+            "Lanczos only under SelfAdjoint; the matrix handed to the backend eigh / eig is A itself (term equality, under H(A)=A for eigh); a triangular back-substitution helper "
+            "that reads one strict triangle only receives data of that orientation for every value of the operand's lower flag.",
             "That returned pairs satisfy A v = lambda v, convergence and linear independence are numerical and not decided.", "4/C10"),
     "C12": ("bounded-loop certificate (cap conjunct + counter monotonicity), def-use of the stopping tolerance and the scaling array, axis discipline of reductions, typestate of the iteration counter",
             "Decides the stopping contract and the structural part of the per-column claim: the loop condition is a conjunction containing k < max_iters with k from 0 by +1 per body; it "
@@ -109,13 +113,15 @@ CHECKS = {
             "Structural necessary conditions: at most min(max_iters, n) steps (clip + cond conjunct i <= max_iters with i from 1 by +1); T is Tridiagonal(a, b, a) with the same array in "
             "both off-diagonal slots and off-diagonal entries written as norms; the start vector is divided by its norm (not in place) and stored in column 1; the re-orthogonalisation "
             "coefficient conjugates the basis it is later multiplied with; lanczos_eigs sorts ascending and permutes values and vector columns by the same index; diagonal, off-diagonal "
-            "and Q are trimmed to N, N-1, N for one size N; the work buffers of init_lanczos are typed by the operator's dtype at every call site.",
+            "and Q are trimmed to N, N-1, N for one size N; the work buffers of init_lanczos are typed by the operator's dtype at every call site; every clip / maximum bound inside the "
+            "factorisation loop has the degree of homogeneity (in the scale of A) of the quantity it guards.",
             "Orthonormality, the three-term recurrence, early termination and A Q - Q T are numerical and not decided.", "4/C14"),
     "C15": ("bounded-loop certificate, allocation check of the work buffers, sign provenance, dependence of the normalisation floor on the tolerance, projection convention",
             "Thin structural claim: at most min(max_iters, n) steps; H and Q are zero-initialised (never empty) and sized by the requested cap, which is why extra rows/columns stay zero; "
             "sub-diagonal entries are norms; the new vector is divided by clip(norm, floor) with a floor that depends on tol (a tol-independent floor turns post-breakdown rounding noise "
             "into a unit column with a zero H column); modified Gram-Schmidt conjugates the basis; the first column is the normalised start vector; arnoldi_eigs drops the last row of H "
-            "and last column of Q together; the work buffers of init_arnoldi are typed by the operator's dtype at every call site.",
+            "and last column of Q together; the work buffers of init_arnoldi are typed by the operator's dtype at every call site; every clip / maximum bound inside the factorisation "
+            "loop has the degree of homogeneity (in the scale of A) of the quantity it guards (refuted on this tree: known finding).",
             "The Arnoldi relation, orthonormality and breakdown behaviour as numbers are not decided.", "4/C15"),
     "C01": ("dtype-source dataflow over every _matmat/_rmatmat, dependence of composite metadata, role checks of dimensions on the generic paths and the Kronecker / KronSum / BlockDiag contractions",
             "Partial by construction (the value of a product is out of reach): decides that no buffer typed by one side receives data of the other side in place, that the result dtype of "
